@@ -353,6 +353,11 @@ func BuildTemplate(root string, seed uint64) (*Meta, error) {
 		if _, err := bug.Close(b, alice, now(), nil); err != nil {
 			return nil, err
 		}
+		// a label set earlier is removed again: operations that are valid one by one (say a label
+		// listed twice in an "added" list) then meet the removal code when the bug is compiled
+		if _, _, err := bug.ChangeLabels(b, alice, now(), nil, []string{"ui"}, nil); err != nil {
+			return nil, err
+		}
 		if err := b.Commit(repo); err != nil {
 			return nil, err
 		}
